@@ -224,20 +224,32 @@ pub fn banks(ev: &FwdEvent) -> BankList {
 }
 
 pub fn banks_of(sig: &Signals, trg_timestamp: u32, noise: f64, noise_seed: u64, chunk_size: usize) -> BankList {
+    banks_of_run(sig, SIM_RUN, trg_timestamp, noise, noise_seed, chunk_size)
+}
+
+/// The same detector response packed for run `run`: that run's wire/pad maps, its leading delays
+/// and, as pedestals, its calibration baselines (read by the harness from the shipped files), so
+/// that the calibrated signals the library sees are the response-shaped pulses. Wires or pads
+/// without a map entry are not sent; without a calibration entry they get the nominal pedestal.
+pub fn banks_of_run(sig: &Signals, run: u32, trg_timestamp: u32, noise: f64, noise_seed: u64, chunk_size: usize) -> BankList {
     struct E {
         trg_timestamp: u32,
         noise: f64,
         chunk_size: usize,
     }
     let ev = E { trg_timestamp, noise, chunk_size };
-    let maps = run_maps(SIM_RUN);
+    let maps = run_maps(run);
+    let cal = crate::refcal::cal_for(run);
+    let wire_delay = cal.wire_delay.unwrap_or(100);
+    let pad_delay = cal.pad_delay.unwrap_or(100);
     let mut r = Rng::new(noise_seed);
     let mut out: BankList = Vec::new();
     out.push(("ATAT".into(), TrgSpec::simple(ev.trg_timestamp, 12345).encode()));
     for (w, s) in &sig.wires {
         let Some((bi, ch)) = maps.wire_src[*w] else { continue };
         let board = &boards::adc_boards()[bi];
-        let wf = digitise(s, 3000, 100, ev.noise, &mut r, -32768, 32764);
+        let pedestal = cal.wire_baseline.as_ref().and_then(|m| m.get(w)).map_or(3000, |b| b.round() as i16);
+        let wf = digitise(s, pedestal, wire_delay, ev.noise, &mut r, -32768, 32764);
         let spec = AdcSpec::unsuppressed(board.mac, bi as u8, 128 + ch, wf);
         out.push((format!("C{}{}", board.name, crate::eventgen::base32_digit(ch)), spec.encode()));
     }
@@ -248,14 +260,20 @@ pub fn banks_of(sig: &Signals, trg_timestamp: u32, noise: f64, noise_seed: u64, 
             continue; // below any realistic threshold: channel not sent
         }
         let Some(&(bi, chip, pc)) = maps.pad_src.get(pos) else { continue };
-        let wf = digitise(s, 1725, 100, ev.noise * 0.7, &mut r, -2048, 2047);
+        let pedestal = cal.pad_baseline.as_ref().and_then(|m| m.get(pos)).map_or(1725, |b| b.round() as i16);
+        let wf = digitise(s, pedestal, pad_delay, ev.noise * 0.7, &mut r, -2048, 2047);
         groups.entry((bi, chip)).or_default().push((pc, wf));
     }
     for ((bi, chip), chans) in groups {
         let board = &boards::pwb_boards()[bi];
         let mut cs: Vec<PwbChannel> = chans.into_iter().map(|(pc, wf)| PwbChannel { readout_index: readout_of_pad_channel(pc), count_field: None, samples: wf }).collect();
         cs.sort_by_key(|c| c.readout_index);
-        let spec = PwbSpec::well_formed(board.mac, chip, (100 + N_PAD_BINS) as u16, cs);
+        // (at most 511 samples can be requested)
+        let req = (pad_delay + N_PAD_BINS).min(511);
+        for c in cs.iter_mut() {
+            c.samples.truncate(req);
+        }
+        let spec = PwbSpec::well_formed(board.mac, chip, req as u16, cs);
         for c in chunk_message(board.device_id, chip, 1, 1, &spec.encode(), ev.chunk_size.clamp(1, 65535)) {
             out.push((format!("PC{}", board.name), c.encode()));
         }
